@@ -124,6 +124,28 @@ def case_length(ctx, L, fs):
         ctx.check(seedlog == [7], "D-SEED", info="the seed is handed unchanged to numpy's default_rng")
 
 
+def case_seed(ctx, kind):
+    """every seed in 0..2**32 (symbolic integer): the generator is constructed with exactly that seed (so equal seeds
+    give equal phases, hence equal series); replay: two calls with the model's seed return identical series"""
+    seedlog = []
+    TS = _install(ctx, seedlog)
+    f, e, s, _ = _spectrum(ctx, 8, "2", kind)
+    seed = ctx.integer("seed")
+    ctx.assume(ctx.And(seed >= 0, seed <= 2 ** 32))
+    if ctx.mode == "sym":
+        fsv = SR(Fraction(2))
+        ctx.noraise("D-SEED.raise", TS.surface_timeseries, "z", fsv, 8, s, seed)
+        ctx.reach("D-SEED")
+        got = seedlog[0] if seedlog else None
+        ok = len(seedlog) == 1 and got is not None
+        ctx.check(ok and (got is seed or bool(ctx.Not(ctx.Not(got == seed)))), "D-SEED",
+                  info=dict(what="default_rng is seeded with the caller's seed for every seed value", got=str(got)))
+    else:
+        a = TS.surface_timeseries("z", 2.0, 8, s, int(seed))[1]
+        b = TS.surface_timeseries("z", 2.0, 8, s, int(seed))[1]
+        ctx.check(bool(np.all(np.asarray(a) == np.asarray(b))), "D-SEED", info="identical seeds give identical series")
+
+
 FACTORS = ("z", "w", "u", "v", "x", "y")
 
 
@@ -305,4 +327,6 @@ def cases(tier):
     if not q:
         add("case_variance", "var_z_n12", component="z", nfft=12, opts=dict(weight=200, case_timeout_s=1500))
     add("case_scaling", "scaling_n8", opts=dict(weight=20))
+    add("case_seed", "seed_1d", kind="1d")
+    add("case_seed", "seed_2d", kind="2d")
     return cs
